@@ -6,13 +6,14 @@ import os, json, shutil, re, sys
 #                                   round 2: /tmp/seed-Cxx/OUT2 + /tmp/seedres2 -> ids Cxx-3, Cxx-4
 #                                   round 3: /tmp/seed-Cxx/OUT3 + /tmp/seedres3 -> ids Cxx-5, Cxx-6
 #                                   round 4: /tmp/seed-Cxx/OUT4 + /tmp/seedres4 -> ids Cxx-7, Cxx-8
+#                                   round 5: /tmp/seed-Cxx/OUT5 + /tmp/seedres5 -> ids Cxx-9, Cxx-10, Cxx-11 (three per property)
 rnd = int(sys.argv[1]) if len(sys.argv) > 1 else 1
-notes_file, outdir, resdir, offset = [("seed_notes.json","OUT","/tmp/seedres",0),("seed_notes2.json","OUT2","/tmp/seedres2",2),("seed_notes3.json","OUT3","/tmp/seedres3",4),("seed_notes4.json","OUT4","/tmp/seedres4",6)][rnd-1]
+notes_file, outdir, resdir, offset = [("seed_notes.json","OUT","/tmp/seedres",0),("seed_notes2.json","OUT2","/tmp/seedres2",2),("seed_notes3.json","OUT3","/tmp/seedres3",4),("seed_notes4.json","OUT4","/tmp/seedres4",6),("seed_notes5.json","OUT5","/tmp/seedres5",8)][rnd-1]
 needs = json.load(open(os.path.join(os.path.dirname(__file__), notes_file)))
 missed = needs.pop("_missed")
 rows=[]
 for p in range(1,21):
-    for c in (1,2):
+    for c in ((1,2,3) if rnd>=5 else (1,2)):
         pid="C%02d"%p; sid="%s-%d"%(pid,c+offset)
         src="/tmp/seed-%s/%s/change%d"%(pid,outdir,c)
         dst="/verif/seeded/"+sid
